@@ -1503,6 +1503,10 @@ def external_call(E, name, ext, e, recv=None, args=None, kwargs=None):
     # ghost assertions of the contract at this call site (the caller's locals are in scope)
     for j, r in enumerate(E.c.d.get("at_call", {}).get(name, [])):
         E.oblige("at-call", E.spec(r, extra=env), f"{name}/{j}")
+    if e is not None and id(e) in E.call_ord:
+        site = f"{name}@{E.call_ord[id(e)]}"  # assertions for one particular call site (k-th call of this callee in source order)
+        for j, r in enumerate(E.c.d.get("at_call", {}).get(site, [])):
+            E.oblige("at-call", E.spec(r, extra=env), f"{site}/{j}")
     saved_entry_ext = None
     if ext.get("modifies_args"):
         # the external may change the listed argument objects: snapshot (for old(..) in its ensures), frame check, havoc
@@ -1930,6 +1934,12 @@ def container_method(E, recv, name, e):
             return NONE
         raise OutOfSubset(f"list.{name}")
     if isinstance(t, tuple) and t[0] == "dict":
+        if name in ("get", "pop", "setdefault") and t[1] is None and args and not st.spec:
+            # an empty {} whose types were never declared (a local the contract does not know, e.g. introduced by a code change): keys of the
+            # type first used, untyped values
+            kt_ = E.full_ty(args[0])
+            E.refine(recv, ("dict", kt_ if kt_ != "none" else "any", "any"))
+            t = E.full_ty(recv)
         if name == "get":
             has = dict_has(E, recv, args[0])
             val = dict_get(E, recv, args[0], check=False)
